@@ -410,6 +410,8 @@ class CDSInterval(AbstractFeatureInterval):
     def has_valid_stop(self) -> bool:
         """Does this CDS have a valid stop? Requires a sequence be associated."""
         seq = self.extract_sequence()
+        if len(seq) < 3:
+            return False
         c = Codon(seq[-3:].sequence.upper())
         return c.is_stop_codon
 
